@@ -549,7 +549,7 @@ impl VxNodeInv {
             final(self).state.payments@.contains_key(h) && final(self).state.payments@[h] == old(self).state.payments@[h],    //[C06.add-keysend.ledger-kept]
         // refused (velocity limit, too many invoices, different keysend for the hash): nothing is approved
         !(r.is_ok() && r->Ok_0) ==> final(self).state.invoices@ == old(self).state.invoices@
-            && final(self).state.payments@ == old(self).state.payments@,                                   //[C10.add-keysend.refused-approves-nothing] [C12.add-keysend.refused-approves-nothing]
+            && final(self).state.payments@ == old(self).state.payments@,                                   //[C10.add-keysend.refused-approves-nothing] [C12.add-keysend.refused-approves-nothing] [C06.add-keysend.refused-leaves-no-ledger-entry]
 //@sub /Node::payment_state_from_keysend\(/ => Self::payment_state_from_keysend(
 //@sub /self\.clock\.now\(\)/ => self.vx_clock_now()
 //@sub /let mut state = self\.get_state\(\);/ => 
@@ -568,7 +568,7 @@ impl VxNodeInv {
         forall|h: PaymentHash| #[trigger] old(self).state.payments@.contains_key(h) ==>
             final(self).state.payments@.contains_key(h) && final(self).state.payments@[h] == old(self).state.payments@[h],    //[C06.add-invoice.ledger-kept]
         !(r.is_ok() && r->Ok_0) ==> final(self).state.invoices@ == old(self).state.invoices@
-            && final(self).state.payments@ == old(self).state.payments@,                                   //[C10.add-invoice.refused-approves-nothing] [C12.add-invoice.refused-approves-nothing]
+            && final(self).state.payments@ == old(self).state.payments@,                                   //[C10.add-invoice.refused-approves-nothing] [C12.add-invoice.refused-approves-nothing] [C06.add-invoice.refused-leaves-no-ledger-entry]
 //@sub /self\.clock\.now\(\)/ => self.vx_clock_now()
 //@sub /let mut state = self\.get_state\(\);/ => 
 //@sub /\bstate\./ => self.state.
